@@ -464,5 +464,32 @@ def r03_6(ctx):
                          "the symbol is missing from the set that drives default resolution order / reference tracking")
 
 
+def r03_7(ctx):
+    """R03.7 side results are recomputed by every evaluation: on every path through each typed branch of Symbol.str_value
+    the flag `_has_active_indirect_set` is assigned before the value is cached - a path that leaves it untouched carries
+    the flag of an *earlier* evaluation into this one (history dependence: the value after some sequence of changes differs
+    from a fresh instance's, and discarding the caches does not help because the flag is not a cache)."""
+    repo = ctx.repo
+    f = repo.func(f"{CORE}:Symbol.str_value")
+    ctx.analysed(f.qual)
+    from . import c01
+    br = c01.typed_branches(f.node)
+
+    def ev(n):
+        if isinstance(n, (ast.If, ast.For, ast.While, ast.With, ast.Try)):
+            return []
+        return ["flag"] if isinstance(n, ast.Assign) and any(ast.unparse(t) == "self._has_active_indirect_set" for t in n.targets) else []
+
+    for name in ("INTHEX", "STRING", "FLOAT"):
+        fl = Flow(f.node, resolver=Resolver(f.node), events=ev, body=br[name]).run()
+        construct = f"Symbol.str_value/{name}/_has_active_indirect_set assigned on every path"
+        stale = [(kind, getattr(node, "lineno", 0)) for kind, node, st in fl.exits if kind in ("fallthrough", "return") and "flag" not in {x[1] for x in st if x[0] == "ev"}]
+        if stale:
+            ctx.bad(construct, f"{len(stale)} way(s) through the branch reach the end without assigning the flag: it keeps the value an earlier "
+                    "evaluation stored", f.loc(br[name][0]))
+        else:
+            ctx.ok(construct, f.loc(br[name][0]), exits=len(fl.exits))
+
+
 def rules():
-    return [("R03.1", r03_1, 14), ("R03.2", r03_2, 9), ("R03.3", r03_3, 7), ("R03.4", r03_4, 4), ("R03.5", r03_5, 8), ("R03.6", r03_6, 5)]
+    return [("R03.7", r03_7, 3), ("R03.1", r03_1, 14), ("R03.2", r03_2, 9), ("R03.3", r03_3, 7), ("R03.4", r03_4, 4), ("R03.5", r03_5, 8), ("R03.6", r03_6, 5)]
